@@ -14,6 +14,9 @@ def gen_tree(rng, n=None, feats=None):
     nodes = []
     for i in range(n):
         nodes.append({"name": "n%d" % i, "fail_on": [], "edges": [], "resources": [], "params": rng.choice(["x", "x", "x,y"])})
+    for i in range(1, n):
+        if rng.random() < F.get("p_zero", 0.0):
+            nodes[i]["params"] = ""      # a function without parameters: every call of it has the same (empty) arguments
     for i in range(n):
         nd = nodes[i]
         if i > 0 and rng.random() < F.get("p_fail", 0.2):
@@ -30,6 +33,8 @@ def gen_tree(rng, n=None, feats=None):
                                [F.get("w_call", 5), F.get("w_catch", 2), F.get("w_ignore", 1), F.get("w_batch", 1.5),
                                 F.get("w_map", 0.7), F.get("w_ctx", 0), F.get("w_prevent", 0), 1])[0]
             e = {"to": j, "mode": mode, "arg": rng.choice([["x"], ["x+1"], ["const", rng.randrange(4)]])}
+            if mode in ("map", "prevent") and nodes[j]["params"] == "":
+                mode = e["mode"] = "call"      # (a prevented call needs arguments of its own: prevention is not part of the key)
             if mode in ("batch", "map"):
                 e["args"] = [rng.randrange(4) for _ in range(rng.randrange(0 if mode == "batch" else 1, 4))]
             if mode == "ctx":
@@ -57,6 +62,8 @@ def _argexpr(a):
 
 
 def _call(nd_to, argexpr):
+    if nd_to["params"] == "":
+        return "()"
     if nd_to["params"] == "x,y":
         return "(%s, 7)" % argexpr
     return "(%s)" % argexpr
@@ -74,12 +81,16 @@ def render(prog, resource_paths=None):
            ""]
     for i in range(len(prog["nodes"]) - 1, -1, -1):
         nd = prog["nodes"][i]
-        sig = "x" if nd["params"] == "x" else "x, y"
+        sig = "x" if nd["params"] == "x" else "x, y" if nd["params"] == "x,y" else ""
         if nd.get("zdef"):
             sig += ", z=10"      # a defaulted parameter that calls normally leave alone
         out.append("@m.memento_function")
         out.append("def %s(%s):" % (nd["name"], sig))
-        out.append('    __vtrace__("%s", x, sorted(locals()))' % nd["name"])
+        if nd["params"] == "":
+            out.append('    __vtrace__("%s", 0, sorted(locals()))' % nd["name"])
+            out.append("    x = 0")
+        else:
+            out.append('    __vtrace__("%s", x, sorted(locals()))' % nd["name"])
         if nd.get("transient"):
             # a transient failure: the first execution in a process raises an exception that is not to be memoized
             out.append('    if x in %r and __vfirst__("%s", x):' % (tuple(nd["transient"]), nd["name"]))
@@ -98,6 +109,8 @@ def render(prog, resource_paths=None):
             y = ", \"y\": 7" if t["params"] == "x,y" else ""
             if e["mode"] == "call":
                 out.append("    r.append(%s%s)" % (tn, _call(t, a)))
+            elif e["mode"] == "kw" and t["params"] == "":
+                out.append("    r.append(%s())" % tn)
             elif e["mode"] == "kw":
                 out.append("    r.append(%s(x=%s%s))" % (tn, a, ", y=7" if t["params"] == "x,y" else ""))
             elif e["mode"] == "catch":
@@ -108,7 +121,7 @@ def render(prog, resource_paths=None):
             elif e["mode"] == "ignore":
                 out.append("    r.append(%s.ignore_result()%s)" % (tn, _call(t, a)))
             elif e["mode"] == "batch":
-                lst = ", ".join('{"x": %d%s}' % (v, y) for v in e["args"])
+                lst = ", ".join(('{"x": %d%s}' % (v, y)) if t["params"] else "{}" for v in e["args"])
                 out.append("    r.append(__vsum__(%s.call_batch([%s], raise_first_exception=False)))" % (tn, lst))
             elif e["mode"] == "map":
                 part = ".partial(y=7)" if t["params"] == "x,y" else ""
@@ -202,8 +215,9 @@ class Model:
             if e.get("when") is not None:
                 if (e["when"] == "positive" and x <= 0) or (e["when"] != "positive" and x not in e["when"]):
                     continue
+            zero = self.prog["nodes"][j]["params"] == ""
             if mode in ("call", "kw", "catch", "ignore", "ctx", "prevent"):
-                xv = self.argval(e["arg"], x)
+                xv = 0 if zero else self.argval(e["arg"], x)
                 o, _ = sub(j, xv, e.get("ctx") if mode == "ctx" else None, mode == "prevent")
                 if o[0] == "exc":
                     if mode in ("catch", "prevent"):
@@ -218,6 +232,7 @@ class Model:
                     break
                 res = []
                 for xv in e["args"]:
+                    xv = 0 if zero else xv
                     o, _ = sub(j, xv, None, False)
                     res.append(["exc", o[1], o[2]] if o[0] == "exc" else o[1])
                 r.append(res)
